@@ -698,10 +698,17 @@ class MPS:
                 assert max_site - min_site == 1, "Entropy and Schmidt cuts must be nearest neighbor."
                 for s in observable.sites:
                     assert s in range(self.length), f"Observable acting on non-existing site: {s}"
+                # The two-site SVD is the Schmidt decomposition of the cut only if the orthogonality centre
+                # sits on the bond, so walk the centre to the left site of the cut first.
+                if min_site > last_site:
+                    for site in range(last_site, min_site):
+                        temp_state.shift_orthogonality_center_right(site)
+                    last_site = min_site
+                cut = [min_site, max_site]
                 if observable.gate.name == "entropy":
-                    results[obs_index, column_index] = self.get_entropy(observable.sites)
+                    results[obs_index, column_index] = temp_state.get_entropy(cut)
                 elif observable.gate.name == "schmidt_spectrum":
-                    results[obs_index, column_index] = self.get_schmidt_spectrum(observable.sites)
+                    results[obs_index, column_index] = temp_state.get_schmidt_spectrum(cut)
 
             elif observable.gate.name == "pvm":
                 assert hasattr(observable.gate, "bitstring"), "Gate does not have attribute bitstring."
